@@ -57,7 +57,7 @@ CHECKS = {
          "DESIGN.md#c10"),
  "C18": ("E4", "exploration",
          "deviation-bounded exhaustive task-schedule, cancellation-point and handle-drop enumeration of the real quinn async API under a deterministic executor",
-         "The real quinn crate (Endpoint, Connecting, Connection, streams, datagrams, EndpointDriver, ConnectionDriver) runs over a harness Runtime (virtual clock, timer table), an in-memory AsyncUdpSocket pair and model TLS on a single-threaded executor whose choice at every step (which ready task, or starve tasks and deliver a datagram / fire a timer) is enumerated with <=k deviations; every cancel-safe await site is cancelled after every n polls and retried; every handle is dropped at every point; send back-pressure injected at every poll_send. Oracles: at quiescence every application task is done (no lost wakeup), data integrity, drivers terminate and bookkeeping is released, no panic, no stale waker registration, documented drop semantics. Each future instance is polled with its own waker, which becomes inert when the instance is dropped, so a waker kept from a cancelled future loses the wakeup;",
+         "The real quinn crate (Endpoint, Connecting, Connection, streams, datagrams, EndpointDriver, ConnectionDriver) runs over a harness Runtime (virtual clock, timer table), an in-memory AsyncUdpSocket pair and model TLS on a single-threaded executor whose choice at every step (which ready task, or starve tasks and deliver a datagram / fire a timer) is enumerated with <=k deviations; every cancel-safe await site is cancelled after every n polls and retried; every handle is dropped at every point; send back-pressure injected at every poll_send. Oracles: at quiescence every application task is done (no lost wakeup), data integrity, drivers terminate and bookkeeping is released, no panic, no stale waker registration, documented drop semantics. Each future instance is polled with its own waker, which becomes inert when the instance is dropped, so a waker kept from a cancelled future loses the wakeup; Scenarios: uni transfers (free and flow-control blocked), bidi echo with datagrams, a set of pending waiters cut by close, 0-RTT accepted / rejected, and two tasks contending for a small datagram send buffer with send_datagram_wait.",
          "Interleaving is at poll granularity on one thread (races inside one poll are out of reach); FIFO loss-free network; tokio primitives used as-is.",
          "DESIGN.md#c18"),
  "C11": ("E3+E2", "model_checking",
@@ -92,8 +92,8 @@ CHECKS = {
          "DESIGN.md#c16"),
  "C17": ("E3+E2", "fault_enumeration",
          "exhaustive drop-mask enumeration + deviation-bounded stateless exploration of real endpoints resuming with a ticket, over accept/reject x Retry x late accept x remembered-vs-new parameters, with salted early data and a differential comparison against a fresh connection",
-         "A client holding a ticket (model TLS; remembered server parameters taken from a real earlier handshake) starts its workload before the handshake completes. For six early workloads (both stream directions, finishes, resets incl. one issued while the window is full, a stop, empty streams, datagrams within and beyond the initial window, 30 kB of stream data, more streams than a small remembered limit) x accept/reject x Retry x accept at once / at a later step x remembered parameters equal / smaller / larger than the new ones, every drop subset of the first K datagrams (both directions) and every <=k drop/dup/delay deviation is run. Accepted: every early byte reaches the server application exactly once and the workload completes. Rejected: early writes carry a salt, so any early byte, reset code or datagram reaching the server application is detected; every early stream answers ClosedStream; accepted_0rtt() is truthful; at Connected the client's peer limits, stream counters, data_sent, unacknowledged bytes and datagram queue equal those of a fresh ticket-less connection, and so does everything loss-independent at the end. Accepted with reduced limits: the client must not carry on.",
-         "Model TLS decides acceptance by configuration; on rejection the application restarts its workload as the API documentation prescribes; the quinn-crate mapping to ZeroRttRejected errors is exercised under C18's executor only for the accept path.",
+         "A client holding a ticket (model TLS; remembered server parameters taken from a real earlier handshake) starts its workload before the handshake completes. For six early workloads (both stream directions, finishes, resets incl. one issued while the window is full, a stop, empty streams, datagrams within and beyond the initial window, 30 kB of stream data, more streams than a small remembered limit) x accept/reject x Retry x accept at once / at a later step x remembered parameters equal / smaller / larger than the new ones, every drop subset of the first K datagrams (both directions) and every <=k drop/dup/delay deviation is run. Accepted: every early byte reaches the server application exactly once and the workload completes. Rejected: early writes carry a salt, so any early byte, reset code or datagram reaching the server application is detected; every early stream answers ClosedStream; accepted_0rtt() is truthful; at Connected the client's peer limits, stream counters, data_sent, unacknowledged bytes and datagram queue equal those of a fresh ticket-less connection, and so does everything loss-independent at the end. Accepted with reduced limits: the client must not carry on. The quinn crate's side (into_0rtt, ZeroRttRejected from stale early handles, a retry stream reusing the rejected stream's id) runs as two scenarios under the deterministic executor of harness-async with <=k schedule deviations and is merged into this check.",
+         "Model TLS decides acceptance by configuration; on rejection the application restarts its workload as the API documentation prescribes; ",
          "DESIGN.md#c17"),
  "C20": ("E3", "fault_enumeration",
          "exhaustive insertion-point enumeration with differential (replay / time-translated / extra-call) runs of real endpoints",
